@@ -2451,7 +2451,7 @@ class Interp:
                         finally:
                             self.recording = rec
                         reads = self.reads_dict(vx, dset, norm(kx), env, fr)
-                        self.event("assign", dset, kav, norm(kx), vav, fr, kx, reads_same=reads, fresh_empty=self.is_fresh_empty(vx))
+                        self.event("assign", dset, kav, norm(kx), vav, fr, e if len(disp.keys) == 1 else kx, reads_same=reads, fresh_empty=self.is_fresh_empty(vx))
                 else:
                     self.event("update", dset, BOT, "", a0, fr, e, detail="dict.update")
                 outs.append(NONE)
